@@ -200,7 +200,7 @@ def o_c04(ctx, desc, obs, model, kw):
                 bad = {col: r[col] for col in ("vin", "vout", "iin", "iout", "pwr", "loss") if r[col] != 0.0}
                 if bad:
                     # numpy's allclose has a fixed absolute tolerance of 1e-8: a quantity below it never makes the solver iterate
-                    ctx.oracle(desc, "dead_supply_all_zero", k, {"below_numpy_atol": all(abs(x) < 1e-8 for x in bad.values())},
+                    ctx.oracle(desc, "dead_supply_all_zero", k, {"below_numpy_atol": all(abs(x) < 1e-8 * len(desc["comps"]) for x in bad.values())},   # a row's Iout sums its children
                                {"phase": ph, "row": r["name"], "nonzero": bad})
             elif odead[r["name"]]:
                 hit = True
@@ -241,6 +241,15 @@ def o_c05(ctx, desc, obs, model, kw):
             r = rows[c["name"]]
             ins = pars[c["name"]]
             live = [q for q in ins if rows[q]["vout"] != 0.0]
+            # liveness decided from the INPUTS of the case only (0 V / phase-inactive elements above), not from the reported rows:
+            # an input that is structurally live but reported at 0 V is the fault, not an excuse
+            sdead = structural_dead(desc, ph)
+            for q in ins:
+                brownout = comps[q]["kind"] == "linreg" and abs(comps[q]["args"].get("vdrop", 0.0)) >= abs(rows[q]["vin"] or 0.0)
+                if not sdead[q] and rows[q]["vout"] == 0.0 and comps[q]["kind"] not in LOADS and not brownout:
+                    ctx.oracle(desc, "live_input_reported_dead", "pmux", {"inputs": len(ins)},
+                               {"phase": ph, "mux": c["name"], "input": q, "inputs": ins, "input_vout": [rows[x]["vout"] for x in ins],
+                                "why_live": "no 0 V source and no phase-inactive element between this input and its source"})
             pattern = "".join("L" if rows[q]["vout"] != 0.0 else "d" for q in ins)
             ctx.stats["mux_pattern:" + pattern] += 1
             trig = {"inputs": len(ins), "selected_index": ins.index(live[0]) if live else -1}
